@@ -163,6 +163,113 @@ pub fn run(reg: &dyn Registry, ctx: &Ctx) -> Outcome {
             }
         })
         .collect();
+    // ---- value-directed probes for the buffered generators -------------------------------------
+    // A state whose *buffered* words have special values (a zero / all-ones word at the first, last or
+    // next-to-be-read slot) is reachable but rare (1 in 2^32 blocks). It is first built by editing the
+    // serde image (never a verdict by itself: an injected image need not be a reachable state); if the
+    // snapshot of that injected state does not round-trip, a *reachable* state with the same pattern is
+    // searched for (seed_from_u64(k), block b) within a budget and the violation is reported on it.
+    if let Some(ty) = reg.get("IsaacRng") {
+        let budget_blocks: u64 = if thorough { 1 << 33 } else { 1 << 29 };
+        let mk = SeedMaker { ty, seed: standard_seeds(ty, ctx.seed)[1].clone() };
+        let mut g = mk.make();
+        for _ in 0..300 {
+            g.next_u32(); // mid-block: index 44 of the second block
+        }
+        let img = g.ser().unwrap();
+        let index = 44usize;
+        let mut suspects: Vec<(usize, u32)> = Vec::new();
+        for slot in [0usize, 255, index, index + 1, 128] {
+            for val in [0u32, u32::MAX] {
+                let mut im = img.clone();
+                im[4 * slot..4 * slot + 4].copy_from_slice(&val.to_le_bytes());
+                ctx.add("injected_images", 1);
+                let Some(Ok(s)) = ty.de(&im) else { continue };
+                if s.ser().as_deref() != Some(&im[..]) {
+                    continue; // not a faithful injection
+                }
+                let Some(bytes) = s.ser() else { continue };
+                let restored = ty.de(&bytes);
+                let ok = match restored {
+                    Some(Ok(mut r)) => {
+                        let mut o = ty.de(&im).unwrap().unwrap();
+                        (0..600).all(|_| r.next_u32() == o.next_u32())
+                    }
+                    _ => false,
+                };
+                if !ok {
+                    suspects.push((slot, val));
+                }
+            }
+        }
+        ctx.set("injected_image_suspects", suspects.len() as u64);
+        for (slot, val) in suspects {
+            // search a reachable block whose buffered word `slot` equals `val`
+            let chunk: u64 = 1 << 14; // seeds per task
+            let blocks_per_seed: u64 = 64;
+            let tasks = budget_blocks / (chunk * blocks_per_seed);
+            let found: Option<(u64, u64)> = (0..tasks).into_par_iter().find_map_any(|t| {
+                for k in t * chunk..(t + 1) * chunk {
+                    let mut g = ty.seed_from_u64(k ^ (ctx.seed << 40));
+                    for b in 0..blocks_per_seed {
+                        // read the block: slot `slot` is the (slot)-th word handed out
+                        let mut hit = false;
+                        for i in 0..256 {
+                            let w = g.next_u32();
+                            if i == slot && w == val {
+                                hit = true;
+                            }
+                        }
+                        if hit {
+                            return Some((k ^ (ctx.seed << 40), b));
+                        }
+                    }
+                }
+                None
+            });
+            ctx.add("reachable_state_search_blocks", tasks * chunk * blocks_per_seed);
+            match found {
+                Some((k, b)) => {
+                    // snapshot inside that block, at every index
+                    let mut bad = None;
+                    for at in [0usize, 1, slot.min(255), 100, 255] {
+                        let mut g = ty.seed_from_u64(k);
+                        for _ in 0..(b as usize * 256 + at) {
+                            g.next_u32();
+                        }
+                        let (_, mut r) = match roundtrip(ty, g.as_ref()) {
+                            Ok(x) => x,
+                            Err(e) => {
+                                bad = Some((at, format!("round trip failed: {}", e)));
+                                break;
+                            }
+                        };
+                        for j in 0..600 {
+                            let (x, y) = (g.next_u32(), r.next_u32());
+                            if x != y {
+                                bad = Some((at, format!("output {} after the snapshot: original {:#x}, restored {:#x}", j, x, y)));
+                                break;
+                            }
+                        }
+                        if bad.is_some() {
+                            break;
+                        }
+                    }
+                    if let Some((at, what)) = bad {
+                        ctx.violation(
+                            "C11:IsaacRng:buffered-value",
+                            &format!("IsaacRng: seed_from_u64({:#x}), block {} (buffered word {} is {:#x}), snapshot after {} words of it: {}", k, b, slot, val, at, what),
+                            json!({"kind":"snapshot","type":"IsaacRng","maker":{"seed_from_u64":k},"ops":ops_json(&vec![Op::U32; b as usize * 256 + at])}),
+                        );
+                    }
+                }
+                None => {
+                    ctx.note(&format!("unconfirmed_suspect_slot{}_val{:#x}", slot, val), json!(format!("an injected image with buffered word {} = {:#x} does not round-trip, but no reachable state with that pattern was found within {} blocks; not reported", slot, val, tasks * chunk * blocks_per_seed)));
+                    println!("NOTE C11: unconfirmed suspicion (injected IsaacRng image with buffered word {} = {:#x} does not round-trip; no reachable witness within budget)", slot, val);
+                }
+            }
+        }
+    }
     for c in ["snapshots_mid_block", "snapshots_half_pending", "crash_points"] {
         if ctx.get(c) == 0 {
             ctx.machinery(&format!("anti-vacuity: counter {} is zero", c));
